@@ -12,7 +12,7 @@
    RTI, and unchanged for every other instruction; taking an interrupt adds one. *)
 From Coq Require Import ZArith List Bool.
 From Model Require Import Bits Word Instr Sim.
-From Proofs Require Import SimAccess SimFrames IrqProofs SimStepObs SimStepFrames.
+From Proofs Require Import SimAccess SimFrames IrqProofs SimStepObs SimStepFrames SimFrameList.
 Import ListNotations.
 Open Scope Z_scope.
 
@@ -110,6 +110,28 @@ Theorem C27_run_example :
     s_frame_no s' = 0 /\ s_pc s' = 12289 /\ s_frames s' = Some [].
 Proof. exact ex_call_ret. Qed.
 Print Assumptions C27_run_example.
+(* second sentence: with debug frames on, the frame list has exactly as many entries as the reported depth —
+   an invariant of [step_in] on EVERY path (completed steps, every error, interrupts, traps, exceptions vectored
+   under real traps, strict-mode failures in the middle of an entry), hence of every run from a state that has it
+   (a new or reset simulator: depth 0, empty list) *)
+Theorem C27_frame_list_length_step : forall e s, FL s -> FL (fst (step_in e s)).
+Proof. exact fl_step_in. Qed.
+Print Assumptions C27_frame_list_length_step.
+Theorem C27_frame_list_length_run : forall es s, FL s -> FL (steps es s).
+Proof. exact fl_run. Qed.
+Print Assumptions C27_frame_list_length_run.
+Theorem C27_frame_list_invariant_meaning : forall s, FL s <->
+  match s_frames s with
+  | Some fs => s_frame_no s = Z.of_nat (List.length fs)
+  | None => 0 <= s_frame_no s
+  end.
+Proof. intros s. reflexivity. Qed.
+Print Assumptions C27_frame_list_invariant_meaning.
+Theorem C27_steps_def : forall e es s, steps [] s = s /\ steps (e :: es) s = steps es (fst (step_in e s)).
+Proof. intros. split; reflexivity. Qed.
+Print Assumptions C27_steps_def.
+Example C27_frame_list_initial : FL ex_call_state.
+Proof. reflexivity. Qed.
 (* built-in trap signatures: GETC/IN return in R0, OUT/PUTS/PUTSP take R0, HALT nothing *)
 Example C27_trap_signatures :
   trap_defn 32 = Some (PBR nil) /\ trap_defn 33 = Some (PBR (0 :: nil)) /\ trap_defn 34 = Some (PBR (0 :: nil)) /\
